@@ -19,7 +19,7 @@ VERDICT = "c13_verdict"
 EXPLAIN = "c13_explain"
 CASES_PER_FILE = 60
 CASE_TIMEOUT = 20
-TIERS = {"quick": {"n": 1500}, "thorough": {"n": 4500, "exhaustive": True}}
+TIERS = {"quick": {"n": 1500}, "thorough": {"n": 6000, "exhaustive": True}}
 RULE = ("base function: 0-4 positional-or-keyword parameters with every default suffix, optional *args, 0-3 keyword-only "
         "parameters each with/without default, optional **kwargs, annotations incl. return, sync/async, def/lambda, "
         "docstring None/''/text, __defaults__ ()/None, default objects incl. None/False/0/''/()/NO_DEFAULT/Ellipsis, and "
@@ -30,7 +30,10 @@ RULE = ("base function: 0-4 positional-or-keyword parameters with every default 
         "__wrapped__ by identity) x call shapes on the outermost function (0..npos+2 positional values, subsets of "
         "parameter names as keywords, unknown keywords, names of *args/**kwargs as keywords), forwarded through every "
         "level to the base function when all steps are plain.  The thorough tier enumerates all 1120 signatures of the "
-        "design's grid (<=3 positional, <=2 keyword-only) with plain wraps (every third one two levels deep).  "
+        "design's grid (<=3 positional, <=2 keyword-only) with plain wraps (every third one two levels deep) and all 1440 "
+        "combinations of __doc__ None/''/text x __module__ None/str x update_dict x hide_wrapped x inject_to_varkw x "
+        "def/lambda/non-identifier __name__ x sync/async x depth 1/2 x plain/inject/expect (a seed-dependent slice of both "
+        "grids in the quick tier); in a stack that is not all plain the wrappers of the plain levels on top forward.  "
         "non-trivial = the signature has >= 2 parameter kinds and, among the call shapes, at least one accepted and one "
         "rejected call (or the stack stopped on a non-plain step); distinct = distinct canonical case hash")
 ASSUMPTIONS = ["parameter names are distinct valid identifiers; positional-only parameters are outside the property",
@@ -772,9 +775,44 @@ def grid():
                                     yield (npos, nd, va, list(kd), vk, annot, asy)
 
 
+def options_grid():
+    """Metadata x options x kind of function x depth, for one small signature: every combination (864)."""
+    for doc in (None, 0, 2):
+        for module in (None, 1):
+            for ud in (True, False):
+                for hw in (False, True):
+                    for tv in (True, False):
+                        for kind in ("def", "lambda", "nonident"):
+                            for asy in (False, True):
+                                for depth in (1, 2):
+                                    for variant in ("plain", "inject", "expect"):
+                                        if kind == "lambda" and asy:
+                                            continue
+                                        yield (doc, module, ud, hw, tv, kind, asy, depth, variant)
+
+
+def options_case(rng, spec, ncalls):
+    doc, module, ud, hw, tv, kind, asy, depth, variant = spec
+    form = "lambda" if kind == "lambda" else "def"
+    fd = make_fd(rng, 2, 1, rng.random() < 0.5, [True], rng.random() < 0.5, None if form == "lambda" else "all", asy, form)
+    fd["doc"], fd["module"] = doc, module
+    if kind == "nonident":
+        fd["name"] = rng.choice(range(8, len(FNAMES)))
+    elif kind == "def":
+        fd["name"] = rng.choice([0, 1, 5])
+    case = make_case(rng, fd, ncalls, variant, depth=depth, variants=[variant] + ["plain"] * (depth - 1))
+    for st in case["steps"]:
+        st["update_dict"], st["hide_wrapped"], st["inject_to_varkw"] = ud, hw, tv
+    return case
+
+
 def generate(rng, tier, n):
     ncalls = 14 if tier == "quick" else 40
     count = 0
+    og = list(options_grid())
+    for spec in (og if tier == "thorough" else rng.sample(og, min(len(og), n // 8))):
+        yield options_case(rng, spec, 8 if tier == "quick" else 20)
+        count += 1
     if tier == "thorough":
         for (npos, nd, va, kd, vk, annot, asy) in grid():
             fd = make_fd(rng, npos, nd, va, kd, vk, annot, asy)
